@@ -67,6 +67,8 @@ def _num(tok, st):
             body = body.rjust(digits, "0")
         if st["zeros"] == "lead":
             body = "00" + body
+        elif st["zeros"] == "pad16":
+            body = body.rjust(16, "0")
         s = _case("0x" + body, st["case"])
         if st["case"] == "mixed":
             s = "0x" + _case(body, "mixed")
@@ -74,6 +76,8 @@ def _num(tok, st):
         s = ("%d" % v).rjust(digits, "0") if digits else "%d" % v
         if st["zeros"] == "lead":
             s = "00" + s
+        elif st["zeros"] == "pad16":
+            s = s.rjust(20, "0")
     return ("-" if neg else "") + s
 
 
